@@ -40,6 +40,11 @@ var quick = map[string]tier{
 	"C13": {runs: 64000}, "C17": {runs: 64000},
 }
 
+// runs that are each the only run of a fresh process (quick tier; ten times as many in the thorough tier)
+var coldRuns = map[string]int{"C01": 64, "C08": 64}
+
+const coldIndex0 = 900000000 // run indices of the cold-start runs
+
 var thorough = map[string]tier{
 	"C01": {budgetS: 600}, "C02": {budgetS: 600}, "C03": {budgetS: 600}, "C04": {budgetS: 600}, "C06": {budgetS: 480},
 	"C07": {budgetS: 480}, "C08": {budgetS: 900}, "C09": {budgetS: 600}, "C10": {budgetS: 900}, "C11": {budgetS: 480},
@@ -100,6 +105,7 @@ type Summary struct {
 	RaceBuild  bool           `json:"race_build"`
 	Seqs       []string       `json:"seqs"`
 	SeqSpace   int            `json:"seq_space"`
+	Cold       bool           `json:"-"`
 }
 
 var (
@@ -259,6 +265,51 @@ func main() {
 		watchdog = time.Duration(tr.budgetS)*time.Second + 10*time.Minute
 	}
 
+	// cold starts: what the library initialises lazily is initialised by the first calls a process makes, so a
+	// number of runs are each the first (and only) run of a fresh process, with a storm scenario (gen.Cold)
+	cold := coldRuns[prop]
+	if tierName == "thorough" {
+		cold *= 10
+	}
+	if os.Getenv("VERIF_RUNS") != "" || os.Getenv("VERIF_SRC_NOCOLD") != "" {
+		cold = 0
+	}
+	if cold > 0 {
+		sem := make(chan struct{}, workers)
+		var cwg sync.WaitGroup
+		for k := 0; k < cold; k++ {
+			k := k
+			j := jobs[k%len(jobs)]
+			cwg.Add(1)
+			sem <- struct{}{}
+			go func() {
+				defer func() { <-sem; cwg.Done() }()
+				outF := filepath.Join(workDir, fmt.Sprintf("cold.%d.jsonl", k))
+				e := []string{
+					"VERIF_PROP=" + prop, "VERIF_MODE=sweep", "VERIF_COLD=1", fmt.Sprintf("VERIF_BASE=%d", seed),
+					fmt.Sprintf("VERIF_SEED0=%d", coldIndex0+k), "VERIF_STRIDE=1", "VERIF_N=1", "VERIF_DET_EVERY=0",
+					"VERIF_OUT=" + outF, "VERIF_PROGRESS=" + filepath.Join(workDir, fmt.Sprintf("cprog.%d", k)), "VERIF_TIER=" + tierName,
+					"GORACE=log_path=" + filepath.Join(workDir, fmt.Sprintf("crace.%d", k)) + " halt_on_error=0 exitcode=0",
+				}
+				out, err := runWorker(j.bin, e, watchdog)
+				s, r, nd := parseOut(outF)
+				mu.Lock()
+				defer mu.Unlock()
+				for i := range s {
+					s[i].Cold = true
+				}
+				sums = append(sums, s...)
+				recs = append(recs, r...)
+				nondet = append(nondet, nd...)
+				if err != nil && len(s) == 0 {
+					sd := seed*1000000000 + int64(coldIndex0+k)
+					crashes = append(crashes, fmt.Sprintf("%d|%d|%s", coldIndex0+k, sd, fmt.Sprintf("cold-start run %d (seed %d) died: %v\n%s", k, sd, err, lastLines(out, 40))))
+				}
+			}()
+		}
+		cwg.Wait()
+	}
+
 	for w := 0; w < workers; w++ {
 		w := w
 		j := jobs[w%len(jobs)]
@@ -409,7 +460,14 @@ func main() {
 		if strings.Contains(sig, ":race:") && raceBin != "" {
 			useBin = raceBin
 		}
-		final := minimiseAndVerify(prop, useBin, r, path)
+		final, confirmed := minimiseAndVerify(prop, useBin, r, path)
+		if !confirmed {
+			// a cold-start record that does not show again in a fresh process is not reported
+			fmt.Printf("  (unconfirmed: %s at cold-start seed %d did not reproduce in a fresh process)\n", sig, r.Seed)
+			os.Remove(path)
+			reported--
+			continue
+		}
 		lines = append(lines, fmt.Sprintf("VIOLATION property=%s replay=%s", prop, path))
 		fmt.Printf("  signature %s (%d failing runs recorded, first seed %d)%s\n", sig, len(rs), r.Seed, final)
 		for _, v := range r.Violations {
@@ -595,13 +653,14 @@ func matchFinding(fs []Finding, prop, sig, detail string) *Finding {
 	return nil
 }
 
-func minimiseAndVerify(prop, bin string, r Record, path string) string {
+func minimiseAndVerify(prop, bin string, r Record, path string) (string, bool) {
+	isCold := r.Seed%1000000000 >= coldIndex0
 	in := filepath.Join(workDir, fmt.Sprintf("fail-%d.json", r.Seed))
 	b, _ := json.Marshal(r)
 	os.WriteFile(in, b, 0o644)
 	budget := "2500"
-	if strings.Contains(r.Sig, ":race:") {
-		budget = "0" // the detector reports a race once per process: no in-process minimisation
+	if strings.Contains(r.Sig, ":race:") || isCold {
+		budget = "0" // the detector reports a race once per process, a process is cold once: no in-process minimisation
 	}
 	note := ""
 	if budget != "0" {
@@ -631,15 +690,24 @@ func minimiseAndVerify(prop, bin string, r Record, path string) string {
 		}
 	}
 	if !rep.Same {
+		if isCold && !strings.Contains(r.Sig, ":race:") {
+			return "", false
+		}
 		// fall back to the un-minimised record
 		ib, _ := json.MarshalIndent(r, "", " ")
 		os.WriteFile(path, ib, 0o644)
-		return note + " [minimised file did not reproduce in a fresh process; original scenario written]"
+		return note + " [minimised file did not reproduce in a fresh process; original scenario written]", true
+	}
+	if isCold {
+		if !rep.SameHash {
+			return note + " [cold-start run, not minimised; replay in a fresh process reproduces the violation; trace hash differs]", true
+		}
+		return note + " [cold-start run, not minimised; replay in a fresh process reproduces it exactly]", true
 	}
 	if !rep.SameHash {
-		return note + " [replay reproduces the violation; trace hash differs]"
+		return note + " [replay reproduces the violation; trace hash differs]", true
 	}
-	return note + " [minimised; replay reproduces it exactly]"
+	return note + " [minimised; replay reproduces it exactly]", true
 }
 
 func doReplay(prop, bin, raceBin, file string) int {
@@ -705,6 +773,12 @@ func doReplay(prop, bin, raceBin, file string) int {
 
 func evidence(prop, tierName string, seed int64, sums []Summary, recs []Record, crashes []string, knownHit map[string]int, wall time.Duration, workers int, race bool) map[string]any {
 	runs, failing, calls, nontrivial, det, detBad, raceRuns := 0, 0, 0, 0, 0, 0, 0
+	coldN := 0
+	for _, s := range sums {
+		if s.Cold {
+			coldN += s.Runs
+		}
+	}
 	var simNs, steps int64
 	counters := map[string]int{}
 	shapes := map[uint64]bool{}
@@ -789,7 +863,8 @@ func evidence(prop, tierName string, seed int64, sums []Summary, recs []Record, 
 		"determinism_selftest_runs":     det,
 		"determinism_selftest_mismatch": detBad,
 		"workers":                       workers,
-		"seed_scheme":                   fmt.Sprintf("run seed = VERIF_SEED(%d)*1e9 + run index; run indices 0..%d", seed, runs-1),
+		"seed_scheme":                   fmt.Sprintf("run seed = VERIF_SEED(%d)*1e9 + run index; run indices 0..%d; cold-start runs (one fresh process each): indices %d..%d", seed, runs-coldN-1, coldIndex0, coldIndex0+coldN-1),
+		"cold_start_runs":               coldN,
 		"real_code":                     "uhppote (all operations, sendto/broadcast/listen filters, ut0311 driver incl. loops, deadlines, defers, goroutines, guard), encoding/UTO311-L0x, encoding/bcd, messages, types, setSocketOptions (against a throw-away kernel socket)",
 		"stubs":                         "OS network stack (verif/sim/vnet), controllers and event senders (scenario emission plans), wall clock (testing/synctest), goroutine choice (seeded scheduler)",
 	}
